@@ -116,6 +116,7 @@ func newMonitor(w *shmx.World, victim int) *c08Monitor {
 	m.prevDump = m.k.DB().Dump(blockTables...)
 	m.k.OnCommit = m.onCommit
 	m.k.OnRestart = m.onRestart
+	m.k.OnError = m.onRestart // an error makes ShuttermintState reload from the database, too
 	return m
 }
 
@@ -272,7 +273,11 @@ func (m *c08Monitor) onRestart(k *shmx.Keyper) {
 			}
 		}
 		if len(slots) > 0 && m.Vulnerable == "" {
-			m.Vulnerable = fmt.Sprintf("restart #%d loads the eon %d DKG state in phase %s with %s", k.Restarts, p.Eon, p.Phase, strings.Join(slots, ", "))
+			what := fmt.Sprintf("restart #%d", k.Restarts)
+			if len(k.Injected) > 0 {
+				what = "the reload after the injected error"
+			}
+			m.Vulnerable = fmt.Sprintf("%s loads the eon %d DKG state in phase %s with %s", what, p.Eon, p.Phase, strings.Join(slots, ", "))
 		}
 	}
 }
@@ -648,7 +653,7 @@ func c08Judge(cs c08Case, run, twin *c08Run) {
 	for _, i := range w.Honest {
 		cl = append(cl, fmt.Sprintf("%d:%s", i, run.Success[i]))
 	}
-	run.Class = fmt.Sprintf("%s victim=%d restarts=%d: %s", cs.Scenario, cs.Victim, v.Restarts, strings.Join(cl, " "))
+	run.Class = fmt.Sprintf("%s victim=%d restarts=%d injected-errors=%d: %s", cs.Scenario, cs.Victim, v.Restarts, len(v.Injected), strings.Join(cl, " "))
 	if m.Vulnerable != "" {
 		run.Class += " [restart loaded gob-mangled empty slots]"
 	}
@@ -695,11 +700,24 @@ func firstPoints(twin *c08Run, reduce bool) []shmx.CrashPoint {
 	return out
 }
 
+// errorPoints: every database round trip refused with an error, every RPC call
+// failing before it is made or after the chain executed it. The process lives.
+func errorPoints(twin *c08Run) []shmx.CrashPoint {
+	var out []shmx.CrashPoint
+	for seq := range twin.RTLog {
+		out = append(out, shmx.CrashPoint{Seq: seq, Err: true})
+	}
+	for seq := range twin.RPCLog {
+		out = append(out, shmx.CrashPoint{RPC: true, Seq: seq, Err: true}, shmx.CrashPoint{RPC: true, Seq: seq, After: true, Err: true})
+	}
+	return out
+}
+
 func c08() *report.Check {
 	return &report.Check{
 		Level: "fault_enumeration",
 		Rule: "complete key generations (n=3, t=2) through fakeshm with real keypers on minipg; S1 all honest, S2 a scripted third keyper deals a wrong evaluation to the victim and accuses it falsely (the victim accuses and apologises), S3 all honest with the third keyper one block slower in the dealing phase. A crash-free twin numbers the victim's database round trips (N) and shuttermint RPC calls (M). " +
-			"quick: victim 0, all scenarios, every single crash point: every round trip and every RPC call x {before it is sent, applied but reply lost}. thorough: both victims, all scenarios, all single points, and every pair (first point: every autocommit statement and RPC call in both modes, per transaction before BEGIN / before COMMIT / after COMMIT; second point: each of the next 60 round trips and 6 RPC calls after the restart, both modes). " +
+			"quick: victim 0, all scenarios, every single crash point: every round trip and every RPC call x {before it is sent, applied but reply lost}; additionally every single transient error (a database round trip refused, an RPC call failing before / after the chain executed it) after which the keyper re-enters its loop with the same in-memory objects. thorough: both victims, all scenarios, all single points, and every pair (first point: every autocommit statement and RPC call in both modes, per transaction before BEGIN / before COMMIT / after COMMIT; second point: each of the next 60 round trips and 6 RPC calls after the restart, both modes). " +
 			"A crash drops the open transaction and every in-memory object; the keyper is rebuilt like KeyperCore.Start and runs on to a fixed horizon. Oracle at every commit point of the victim's database: current_block advances by one, block-driven tables change only together with current_block, queued/sent commitments and evaluations equal the stored polynomial; at the horizon: every block once, one commitment per eon, sent evaluations verify, outbox empty and delivered in id order, same outcome / accepted message kinds / per-block database structure as the twin, C07's agreement oracle.",
 		Assumptions: []string{
 			"a restart completes within one block interval: the restarted keyper runs its loop again while the same block is open (so that a crash changes state, not timing)",
@@ -724,11 +742,11 @@ func c08() *report.Check {
 				c08Judge(cs, run, twin)
 				c.Stats.Evaluations++
 				c.Stats.Class(run.Class)
-				if len(run.W.Keypers[cs.Victim].Crashes) < len(cs.Crash) {
+				if vk := run.W.Keypers[cs.Victim]; len(vk.Crashes)+len(vk.Injected) < len(cs.Crash) {
 					c.Stats.Count("crash_points_not_reached", 1)
 				}
 				if run.Sig != "" {
-					c.Violation(run.Sig, fmt.Sprintf("scenario %s, victim keyper %d, crash at %v\nfired: %v\n%s", cs.Scenario, cs.Victim, cs.Crash, run.W.Keypers[cs.Victim].Crashes, run.Msg), cs)
+					c.Violation(run.Sig, fmt.Sprintf("scenario %s, victim keyper %d, fault at %v\nfired: %v %v\n%s", cs.Scenario, cs.Victim, cs.Crash, run.W.Keypers[cs.Victim].Crashes, run.W.Keypers[cs.Victim].Injected, run.Msg), cs)
 				}
 				if c.Stats.Evaluations%211 == 1 {
 					c.Stats.Sample(map[string]any{"case": cs, "fired": run.W.Keypers[cs.Victim].Crashes, "outcome": run.Class})
@@ -771,6 +789,19 @@ func c08() *report.Check {
 					}
 					runCase(c08Case{Scenario: j.scenario, Victim: j.victim, Crash: []shmx.CrashPoint{p}}, twin)
 					c.Stats.Count("single_crash_runs", 1)
+				}
+				// single transient errors (no crash, the keyper keeps its objects)
+				for _, p := range errorPoints(twin) {
+					unit++
+					if unit%c.NShards != c.Shard {
+						continue
+					}
+					if c.Expired() {
+						c.Stats.Cap("deadline during single error points")
+						return
+					}
+					runCase(c08Case{Scenario: j.scenario, Victim: j.victim, Crash: []shmx.CrashPoint{p}}, twin)
+					c.Stats.Count("single_error_runs", 1)
 				}
 			}
 			if !c.Thorough {
@@ -817,7 +848,7 @@ func c08() *report.Check {
 			run := c08Execute(cs, false)
 			c08Judge(cs, run, twin)
 			if run.Sig != "" {
-				return fmt.Sprintf("[%s] crash at %v (fired: %v)\n%s\nsteps: %v", run.Sig, cs.Crash, run.W.Keypers[cs.Victim].Crashes, run.Msg, run.W.StepLog)
+				return fmt.Sprintf("[%s] fault at %v (fired: %v %v)\n%s\nsteps: %v", run.Sig, cs.Crash, run.W.Keypers[cs.Victim].Crashes, run.W.Keypers[cs.Victim].Injected, run.Msg, run.W.StepLog)
 			}
 			return ""
 		},
